@@ -420,6 +420,66 @@ func propC15(c *Ctx) {
 						Detail: "want a non-sentinel error naming the unknown token"})
 				}
 			}
+			// unknown token that is a word of another list (e.g. Traditional in a Simplified sentence)
+			for k := 0; k < 3; k++ {
+				oli := (li + 1 + c.rng.Intn(9)) % 10
+				if langNames[li] == "ChineseSimplified" && k == 0 {
+					oli = 1
+				}
+				if langNames[li] == "ChineseTraditional" && k == 0 {
+					oli = 0
+				}
+				ow := c.canonWords(int64(langVals[oli]))
+				inList := map[string]bool{}
+				for _, w := range words {
+					inList[w] = true
+				}
+				for try := 0; try < 50; try++ {
+					w := ow[c.rng.Intn(2048)]
+					if inList[w] {
+						continue
+					}
+					t := append([]string(nil), toks...)
+					p := c.rng.Intn(len(t))
+					t[p] = w
+					impl, _ := c.chk("unknown-only:word-of-another-list", l, strings.Join(t, " "))
+					if !strings.HasPrefix(impl, "err other ") || !strings.Contains(string(unhx(strings.TrimPrefix(impl, "err other "))), w) {
+						r.violate(Violation{Kind: "property", Class: "unknown-only:word-of-another-list", Op: fmt.Sprintf("chk %d %s", l, hx([]byte(strings.Join(t, " ")))), Impl: impl,
+							Detail: "want a non-sentinel error naming the unknown token " + w})
+					}
+					break
+				}
+			}
+			// odd unknown tokens: percent signs, backticks, invalid UTF-8, very long
+			for _, odd := range []string{"%s", "%d%%", "`", "a`b", "\xff", "x\x00y", strings.Repeat("é", 300), strings.Repeat("z", 70000)} {
+				t := append([]string(nil), toks...)
+				p := c.rng.Intn(len(t))
+				t[p] = odd
+				impl, _ := c.chk("unknown-only:odd-token", l, strings.Join(t, " "))
+				if !strings.HasPrefix(impl, "err other ") {
+					r.violate(Violation{Kind: "property", Class: "unknown-only:odd-token", Op: fmt.Sprintf("chk %d <sentence with token %.20q at %d>", l, odd, p), Impl: impl,
+						Detail: "want a non-sentinel error naming the unknown token"})
+				}
+			}
+			if n == 16 {
+				// a single enormous unknown token (beyond the line protocol: implementation only)
+				for _, size := range []int{1 << 20, 3 << 20} {
+					t := append([]string(nil), toks...)
+					p := c.rng.Intn(len(t))
+					t[p] = strings.Repeat("q", size)
+					impl := implChk(l, strings.Join(t, " "))
+					r.count("unknown-only:huge-token")
+					ok := strings.HasPrefix(impl, "err other ")
+					if ok {
+						msg := string(unhx(strings.TrimPrefix(impl, "err other ")))
+						ok = strings.Contains(msg, t[p])
+					}
+					if !ok {
+						r.violate(Violation{Kind: "property", Class: "unknown-only:huge-token", Op: fmt.Sprintf("chk %d <%d-word sentence whose token %d is 'q'×%d>", l, len(t), p, size), Impl: trunc(impl, 200),
+							Detail: "acceptable count, one unknown token: want a non-sentinel error naming it"})
+					}
+				}
+			}
 			// checksum defect only
 			for k := 0; k < 4; k++ {
 				t := append([]string(nil), toks...)
